@@ -21,7 +21,13 @@ func ip(i int32) *int32   { return &i }
 
 func genErrorResponse(c *harness.Ctx, id int) *common.ErrorResponse {
 	e := &common.ErrorResponse{}
-	switch c.Choose(6, "err-status") {
+	switch c.Choose(8, "err-status") {
+	case 6: // an error response may carry any status the application likes; "the HTTP status equals its status" has no
+		// exception for the ones below 400 (statuses that cannot carry a body - 1xx, 204, 304 - are left out: net/http
+		// would drop the error document, which is not go-restli's doing)
+		e.Status = ip(303)
+	case 7:
+		e.Status = ip(299)
 	case 0:
 		e.Status = ip(404)
 	case 1:
